@@ -28,7 +28,7 @@ structure Member where
 deriving DecidableEq, Repr, Inhabited
 
 /-- What `Identity::renew` of the instance's own identity does. -/
-inductive Policy | none | bump | same | lose | sameEq
+inductive Policy | none | bump | same | lose | sameEq | tie
 deriving DecidableEq, Repr, Inhabited
 
 def renew (p : Policy) (i : Id) : Option Id :=
@@ -38,13 +38,17 @@ def renew (p : Policy) (i : Id) : Option Id :=
   | .same => some i
   | .lose => some ⟨i.addr, i.gen - 1⟩
   | .sameEq => some i
+  | .tie => some ⟨i.addr, i.gen + 1⟩
 
 /-- `new_identity.win_addr_conflict(&self.identity)` in `attempt_rejoin`: the identity type decides, and nothing
     obliges it to answer `false` for an identity equal to itself — flavour `sameEq` compares with `≥`. (Between
-    *distinct* identities of one address the generations differ, so `≥` and `>` agree there.) -/
+    *distinct* identities of one address the generations differ, so `≥` and `>` agree there.) Nor need the
+    relation be total on distinct identities: flavour `tie` compares half the generation, so that a renewed
+    identity can differ from the old one while neither wins. -/
 def renewWins (p : Policy) (a b : Id) : Bool :=
   match p with
   | .sameEq => decide (a.gen ≥ b.gen)
+  | .tie => decide (a.gen / 2 > b.gen / 2)
   | _ => a.wins b
 
 /-- `members.cursor`; `usize::MAX` is its own constructor. -/
